@@ -69,7 +69,9 @@ ASSUMPTIONS = [
     "FAILED/aborting harness is first cross-checked by the exact oracle at "
     "n=20 (probe vectors) and reported under the exact bucket if that "
     "fails too; a harness whose inner products overflow (Infinity/NaN) is "
-    "counted as inconclusive",
+    "counted as inconclusive, and so is a harness run in which the "
+    "tangent-linear kernel itself aborts on the harness's own values of "
+    "the passive integer arguments (all 1): outside the kernel's domain",
 ]
 
 NSTATE_FULL = 30       # full matrices up to this state size, else probes
@@ -369,6 +371,12 @@ def harness_check(case, adj, harness, workdir):
         out = run.stdout
         if run.returncode != 0:
             err = run.stderr.strip().splitlines()
+            if any("of file tl.f90" in ln for ln in err[:3]):
+                # The TANGENT-LINEAR kernel itself aborts (bounds check)
+                # on the harness's own choice of the passive integer
+                # arguments (all set to 1): these inputs are outside the
+                # kernel's domain, so there is no verdict on the adjoint.
+                return ("harness:tl-domain", " | ".join(err[:2])[:200])
             return ("harness:run",
                     f"generated harness aborts (rc={run.returncode}): "
                     f"{' | '.join(err[:4])[:400]}")
@@ -425,6 +433,8 @@ def evaluate(case, want_harness, workdir):
                 return res20
         if bad and bad[0] == "harness:overflow":
             res["harness_overflow"] = True
+        elif bad and bad[0] == "harness:tl-domain":
+            res["harness_tl_domain"] = True
         elif bad:
             res.update(status="fail", bucket=bad[0], msg=bad[1],
                        harness=harness)
@@ -807,6 +817,8 @@ def run(ctx):
                                        else "_nonreal_args"))
         if res.get("harness_overflow"):
             ctx.label("harness_inconclusive_overflow")
+        if res.get("harness_tl_domain"):
+            ctx.label("harness_inconclusive_tl_aborts_on_harness_inputs")
         if status == "fail":
             case = res.get("case", case)
             case["adjoint"] = res["adjoint"]
